@@ -12,14 +12,14 @@ ASSUMPTIONS = ["time items strictly increasing", "survival table in [0,1], non-i
                "scipy.linalg.solve_triangular satisfies its documented contract (lapack solver)"]
 OUTSIDE = ["n beyond the bound", "IEEE rounding", "LAPACK internals"]
 BOUNDS = {"quick": dict(n=[3, 4], extra=["-", "r2"], grids=dsm.GRIDS, classes="idsm, sdsm manual, sdsm lapack", table="free symbolic (every lifetime model)"),
-          "thorough": dict(n=[3, 4, 5], extra=["-", "r2", "r2xp2"], grids=dsm.GRIDS, classes="as quick")}
+          "thorough": dict(n=[3, 4, 5, 6], extra=["-", "r2", "r2xp2"], grids=dsm.GRIDS, classes="as quick")}
 OPTS = {"quick": dict(shadow_every=3, timeout_ms=20000), "thorough": dict(shadow_every=5, timeout_ms=120000)}
 KINDS = ["idsm", "sdsm_manual", "sdsm_lapack"]
 
 
 def configs(tier, seed):
     out = []
-    ns = [3, 4] if tier == "quick" else [3, 4, 5]
+    ns = [3, 4] if tier == "quick" else [3, 4, 5, 6]
     extras = [{}, {"r": 2}] if tier == "quick" else [{}, {"r": 2}, {"r": 2, "p": 2}]
     for kind in KINDS:
         for grid in dsm.GRIDS:
